@@ -8,6 +8,17 @@ WORK = os.path.join(VERIF, "work")
 EVID = os.path.join(VERIF, "evidence")
 REPLAYS = os.path.join(VERIF, "replays")
 JAR = "/opt/veriftools/tla/tla2tools.jar:/opt/veriftools/tla/CommunityModules-deps.jar"
+# The repository under test. Registered checks always use /repo; FC_REPO lets a background run
+# (`vp run --with-repo`, a scratch worktree) exercise a snapshot with its own copy of the harness.
+REPO = os.environ.get("FC_REPO", "/repo")
+if REPO != "/repo":
+    import hashlib
+    _tag = hashlib.sha1(REPO.encode()).hexdigest()[:10]
+    WORK = os.path.join(WORK, "alt-" + _tag)
+    HARNESS_SRC = HARNESS
+    HARNESS = os.path.join(WORK, "harness")
+    EVID = os.path.join(WORK, "evidence")      # never the registered evidence directory
+    REPLAYS = os.path.join(WORK, "replays")
 BIN = {"dev": os.path.join(HARNESS, "target/debug/fcverif"),
        "release": os.path.join(HARNESS, "target/release/fcverif")}
 
@@ -47,8 +58,13 @@ def build_harness():
     lockf = open(os.path.join(WORK, "build.lock"), "w")
     fcntl.flock(lockf, fcntl.LOCK_EX)
     try:
+        if REPO != "/repo":
+            # private copy of the harness sources pointing at the snapshot
+            sh(["rsync", "-a", "--delete", "--exclude", "target", HARNESS_SRC + "/", HARNESS + "/"])
+            ct = open(os.path.join(HARNESS, "Cargo.toml")).read().replace('path = "/repo"', 'path = "%s"' % REPO)
+            open(os.path.join(HARNESS, "Cargo.toml"), "w").write(ct)
         if not os.path.exists(os.path.join(HARNESS, "Cargo.lock")):
-            shutil.copy("/repo/Cargo.lock", os.path.join(HARNESS, "Cargo.lock"))
+            shutil.copy(os.path.join(REPO, "Cargo.lock"), os.path.join(HARNESS, "Cargo.lock"))
         for prof, args in (("dev", []), ("release", ["--release"])):
             rc, out = sh(["cargo", "build", "--offline", "-q"] + args, cwd=HARNESS, timeout=1500)
             if rc != 0:
@@ -350,7 +366,7 @@ def validate_traces(out, name, trace_module, trace_cfg, jobs, why_filter=lambda 
             log("\n".join(tail[-40:]))
             raise ToolError("trace %s was not consumed completely (%s of %d events): the trace specification or the "
                             "recorder is broken" % (j["label"], done, j["events"]))
-        runs = sum(1 for l in open(j["trace"]) if '"ev":"reset"' in l)
+        runs = j["events"] if j.get("runs_are_lines") else sum(1 for l in open(j["trace"]) if '"ev":"reset"' in l)
         out.validated += runs
         out.judged += j["events"]
         st["traces"].append({"label": j["label"], "events": j["events"], "runs": runs, "rejected_runs": len(errs),
@@ -484,13 +500,37 @@ def alloc_property(out, q, seed):
         os.remove(j)
 
 
+def string_codec_stage(out, q, seed):
+    """C04 for dictionary-coded string regions: StringRegion<CodecRegion<DictionaryCodec>> driven through &str;
+    every &str handed out is re-validated as UTF-8 and must be the pushed string (TraceDict decides)."""
+    wd = os.path.join(WORK, out.prop)
+    os.makedirs(wd, exist_ok=True)
+    g = os.path.join(wd, "strcodec.scn")
+    rc, o = sh([BIN["release"], "dict-gen", "--utf8", "--seed", str(seed * 1000 + 9), "--count", str(28 if q else 210), "--out", g])
+    if rc != 0:
+        raise ToolError("dict-gen --utf8 failed")
+    jobs = []
+    for prof in ("dev", "release"):
+        tr = os.path.join(wd, "strcodec.%s.ndjson" % prof)
+        rc, o = sh([BIN[prof], "dict-run", g, "--out", tr, "--nslots", "5", "--as-str"], timeout=1800)
+        if rc != 0:
+            log(o[-2000:])
+            raise ToolError("dict-run --as-str failed")
+        jobs.append({"label": "str-" + prof, "trace": tr, "scenarios": g, "profile": profile_label(prof),
+                     "replay": "dictionary-str", "sigprefix": "string-codec"})
+    validate_traces(out, "string-codec-traces", "TraceDict.tla", os.path.join(SPEC, "TraceDict.cfg"), jobs,
+                    err_filter=lambda e: e["why"] in ("read-failed", "read-back-differs", "earlier-item-changed"), timeout=3000)
+    for j in glob.glob(os.path.join(wd, "*.ndjson")):
+        os.remove(j)
+
+
 def string_alphabet_stage(out):
     """C04, program-text half: facts scanned from /repo/src checked against spec/StringAlphabet.tla"""
     wd = os.path.join(WORK, out.prop)
     os.makedirs(wd, exist_ok=True)
     sys.path.insert(0, os.path.join(VERIF, "lib"))
     import scan_api
-    facts = scan_api.scan("/repo")
+    facts = scan_api.scan(REPO)
     fp = os.path.join(wd, "facts.json")
     json.dump(facts, open(fp, "w"), indent=1)
     outp = os.path.join(wd, "alphabet.tlcout")
@@ -545,6 +585,35 @@ def dict_jobs(out, name, scn, nslots):
     return jobs
 
 
+def summary_stage(out, q, seed):
+    """the heavy-hitter summary behind the dictionary statistics: MisraGries.tla model-checked (guarantees as
+    invariants), then recorded runs of the real `MisraGries` validated against the same guarantees"""
+    wd = os.path.join(WORK, out.prop)
+    os.makedirs(wd, exist_ok=True)
+    cfg = os.path.join(wd, "mg.cfg")
+    write_cfg(cfg, {"Elems": {1, 2, 3, 4}, "Cap": 4 if q else 6, "MaxN": 10 if q else 11},
+              ["NeverOverestimates", "Bounded", "LossBounded", "DominantFirst"], view=None, action_constraint=None)
+    r = run_tlc("MisraGries.tla", cfg, os.path.join(wd, "mg.tlcout"), os.path.join(wd, "mg.meta"), workers=4, timeout=900)
+    if not r["ok"]:
+        log(r["tail"][-2000:])
+        raise ToolError("TLC failed on MisraGries.tla")
+    out.states += r["distinct"]
+    out.transitions += r["states"]
+    out.stages.append({"stage": "summary-model", "module": "MisraGries.tla", "tlc_states_generated": r["states"],
+                       "tlc_distinct_states": r["distinct"], "invariants": ["NeverOverestimates", "Bounded", "LossBounded", "DominantFirst"]})
+    jobs = []
+    for prof in ("dev", "release"):
+        tr = os.path.join(wd, "mg.%s.ndjson" % prof)
+        rc, o = sh([BIN[prof], "mg-run", "--seed", str(seed * 100 + 23), "--runs", str(150 if q else 1500), "--out", tr])
+        if rc != 0:
+            raise ToolError("mg-run failed")
+        jobs.append({"label": "mg-" + prof, "trace": tr, "scenarios": tr, "profile": profile_label(prof), "replay": "summary",
+                     "sigprefix": "summary", "runs_are_lines": True})
+    validate_traces(out, "summary-traces", "TraceMG.tla", os.path.join(SPEC, "TraceMG.cfg"), jobs, timeout=1800)
+    for j in glob.glob(os.path.join(wd, "*.ndjson")):
+        os.remove(j)
+
+
 def dictionary_property(out, q, seed):
     c = {"NSlots": 2, "MaxGen0": 2, "MaxMerge": 1 if q else 2, "MaxCoded": 2, "MaxClear": 1,
          "StrSel": "quick" if q else "thorough", "Emit": True}
@@ -557,6 +626,23 @@ def dictionary_property(out, q, seed):
     if rc != 0:
         raise ToolError("dict-gen failed")
     validate_traces(out, "random-traces", "TraceDict.tla", tcfg, dict_jobs(out, "random", g, 5), timeout=3000)
+    for j in glob.glob(os.path.join(wd, "*.ndjson")):
+        os.remove(j)
+    summary_stage(out, q, seed)
+
+
+def huffman_random_stage(out, q, seed, err_filter, name):
+    wd = os.path.join(WORK, out.prop)
+    os.makedirs(wd, exist_ok=True)
+    jobs = []
+    for ty in ("u8", "u16"):
+        g = os.path.join(wd, "%s.%s.scn" % (name, ty))
+        rc, o = sh([BIN["release"], "huff-gen", "--seed", str(seed * 1000 + (5 if ty == "u8" else 6)), "--count",
+                    str(40 if q else 300), "--ty", ty, "--out", g] + (["--small"] if q else []))
+        if rc != 0:
+            raise ToolError("huff-gen failed")
+        jobs += huffman_jobs(out, name, g, tys=(ty,), nslots=3)
+    validate_traces(out, name + "-traces", "TraceHuffman.tla", os.path.join(SPEC, "TraceHuffman.cfg"), jobs, err_filter=err_filter)
     for j in glob.glob(os.path.join(wd, "*.ndjson")):
         os.remove(j)
 
@@ -667,12 +753,13 @@ def run_property(prop, tier, seed):
         if not q:
             ic_stage(out, "big-deep", prop, ["stride", "opt", "list"], "big", 6, 0, extend=False)
     elif prop == "C19":
-        ic_stage(out, "full", prop, ["vec", "list", "opt"], "full", 4 if q else 5, 0)
+        # ghost = 1: reserve / clone / serde may precede or follow; capacity must stay zero for compressible histories
+        ic_stage(out, "full", prop, ["vec", "list", "opt"], "full", 4 if q else 5, 1)
         ic_stage(out, "small-deep", prop, ["opt", "list"], "small", 6 if q else 8, 0, extend=False)
         if not q:
             ic_stage(out, "big-deep", prop, ["opt", "list"], "big", 6, 0, extend=False)
         stack_stage(out, "flatstack-dense", prop, stack_names(lambda e: e["ic"] == "opt"), 4 if q else 5, 1, 4 if q else 5,
-                    ["copy", "extend", "from_iter", "clear", "merge_capacity", "clone", "serde"])
+                    ["copy", "extend", "from_iter", "clear", "merge_capacity", "clone", "serde", "reserve"])
     elif prop == "C01":
         region_stage(out, "push-clear", prop, allnames, 1, 3 if q else 4, 0, 4 if q else 5, ["push", "clear"])
         region_stage(out, "push-from", prop, subjects_where(cat, lambda e: e["caps"]["push_item"]), 2, 3, 0, 3,
@@ -691,6 +778,7 @@ def run_property(prop, tier, seed):
         names = subjects_where(cat, lambda e: has_string(e["shape"]))
         region_stage(out, "strings", prop, names, 2, 3 if q else 4, 1, 4 if q else 5,
                      ["push", "clear", "clone", "clone_from", "merge", "serde", "push_from"])
+        string_codec_stage(out, q, seed)
         string_alphabet_stage(out)
     elif prop == "C08":
         region_stage(out, "clear", prop, allnames, 1, 4 if q else 5, 0, 3 if q else 4, ["push", "clear"], equiv=2)
@@ -734,17 +822,24 @@ def run_property(prop, tier, seed):
         names = subjects_where(cat, lambda e: e["caps"]["push_item"])
         region_stage(out, "into-owned", prop, names, 2, 3, 0, 4 if q else 5, ["push", "push_from"],
                      queries=["clone_onto", "borrow"])
+        huffman_random_stage(out, q, seed, lambda e: e["why"] == "clone-onto-differs", "huffman-clone-onto")
     elif prop == "C15":
         names = subjects_where(cat, lambda e: e["caps"]["cmp"])
         region_stage(out, "cmp", prop, names, 2, 3, 0, 5, ["push"], queries=["cmp"])
         huffman_cmp_stage(out, q, seed)
+    elif prop == "C_unused":
+        pass
     elif prop == "C18":
         names = subjects_where(cat, lambda e: e["caps"]["heap"])
         region_stage(out, "heap", prop, names, 1, 4 if q else 5, 0, 3 if q else 4, ["push", "clear"])
         stack_stage(out, "flatstack", prop, stack_names(), 4, 0, 3, ["copy", "extend", "clear", "from_iter"])
+        ic_stage(out, "index-containers", prop, ["vec", "list", "opt"], "full", 4, 0)
         contract_trace_stage(out, ["C18"], q, seed)
     elif prop == "C20":
         region_stage(out, "forms", prop, allnames, 2, 3 if q else 4, 0, 3, ["push", "push_from"])
+        # a read item of another container (raw or coded) as input form: reads, bit ranges and the statistics
+        # that the next generation is built from
+        huffman_random_stage(out, q, seed, lambda e: e.get("wrapped", False) and not e["why"].startswith("cmp"), "huffman-wrapped")
     elif prop == "C17":
         names = subjects_where(cat, lambda e: is_structural(e["shape"]))
         region_stage(out, "ledger-rule", prop, names, 2, 3, 0, 4, ["push", "clear"], min_judged=0, replay=False)
@@ -789,10 +884,11 @@ def do_replay(prop, path):
     kind = r.get("replay_kind", "replay")
     wd = os.path.join(WORK, "replay")
     os.makedirs(wd, exist_ok=True)
-    if kind in ("huffman", "dictionary"):
+    if kind in ("huffman", "dictionary", "dictionary-str"):
         return do_replay_trace(prop, path, r, kind, wd)
     if kind == "alphabet":
         out = Outcome(prop, "quick", 0)
+        string_codec_stage(out, q, seed)
         string_alphabet_stage(out)
         for v in out.violations:
             log("violated: %s" % v["why"])
@@ -832,12 +928,17 @@ def do_replay_trace(prop, path, r, kind, wd):
     open(scn, "w").write(json.dumps({"ops": r["scenario"]["ops"], "nslots": r["scenario"].get("nslots", 3)}) + "\n")
     bad = False
     module, cfg, runner = {"huffman": ("TraceHuffman.tla", "TraceHuffman.cfg", "huff-run"),
-                           "dictionary": ("TraceDict.tla", "TraceDict.cfg", "dict-run")}[kind]
+                           "dictionary": ("TraceDict.tla", "TraceDict.cfg", "dict-run"),
+                           "dictionary-str": ("TraceDict.tla", "TraceDict.cfg", "dict-run")}[kind]
     for prof in ("dev", "release"):
         tr = os.path.join(wd, "one.%s.ndjson" % prof)
         args = [BIN[prof], runner, scn, "--out", tr]
         if kind == "huffman":
-            args += ["--ty", r.get("ty") or "u8", "--nslots", "3"]
+            args += ["--ty", r.get("ty") or "u8", "--nslots", "4"]
+        elif kind == "dictionary-str":
+            args += ["--nslots", "5", "--as-str"]
+        else:
+            args += ["--nslots", "5"]
         rc, o = sh(args)
         if rc != 0:
             die_tool(runner + " failed: " + o[-1000:])
